@@ -4,6 +4,7 @@ mod afio;
 mod obs;
 mod dynamic;
 mod ext;
+mod io;
 mod sat;
 mod stat;
 mod store;
@@ -22,6 +23,7 @@ fn main() {
         "store" => store::cmd_store(&a),
         "dynamic" => dynamic::cmd_dynamic(&a),
         "sat" => sat::cmd_sat(&a),
+        "io" => io::cmd_io(&a),
         "ext" => ext::cmd_ext(&a),
         "extone" => ext::cmd_extone(&a),
         c => {
